@@ -199,6 +199,15 @@ theorem G0.congr {a b a' b' : State} (g : G0 a b)
   · rw [ea1, eb1]; exact g.lost
   · rw [ea1, eb1]; exact g.idle
 
+/-- the same with an explicit depth equation -/
+theorem G0.congr' {a b a' b' : State} (g : G0 a b)
+    (ea1 : a'.threads = a.threads) (ea2 : a'.nextTid = a.nextTid)
+    (eb1 : b'.threads = b.threads) (eb2 : b'.nextTid = b.nextTid) (hd : b'.depth = a'.depth) : G0 a' b' := by
+  refine ⟨by rw [ea2, eb2]; exact g.tid, hd, ?_, ?_, ?_⟩
+  · rw [ea1, ea2, eb1]; exact g.mono
+  · rw [ea1, eb1]; exact g.lost
+  · rw [ea1, eb1]; exact g.idle
+
 theorem G0.trans {a b c : State} (ha : NInv a) (h1 : G0 a b) (h2 : G0 b c) : G0 a c := by
   have g1 : G a { b with cur := a.cur } :=
     (h1.congr (a' := a) (b' := { b with cur := a.cur }) rfl rfl rfl rfl rfl rfl).withCur (Or.inl rfl)
